@@ -724,3 +724,36 @@ Proof.
     rewrite slice_empty by (clear; lia).
     f_equal. clear - NP. destruct (N.eqb_spec 0 n); destruct (N.ltb_spec 0 n); auto; lia.
 Qed.
+
+(* ---------- Copy ---------- *)
+Lemma h_copy_spec h F h' F' x :
+  hwf h F -> h_closed h = false -> h_copy h F = (h', F', x) ->
+  x = OCopy F' /\ hwf h' F' /\ content h' F' = content h F /\ same_cfg h h' /\
+  h_fo h' = h_offset h /\ h_uw h' = h_fl h' /\
+  (h_retry h = true -> h_fo h' - h_fl h' = h_fo h - h_fl h) /\
+  len F' = N.max (len F) (h_offset h) /\
+  F' = content h F ++ drop (h_offset h) F'.
+Proof.
+  intros W CL E. unfold h_copy in E. rewrite CL in E.
+  destruct (h_flush h F) as [h1 F1] eqn:EF.
+  destruct (h_flush_spec _ _ _ _ W EF) as (W1 & C1 & S1 & FO1 & U1 & RT1 & NR1).
+  pose proof (h_flush_len _ _ _ _ W EF) as L1.
+  assert (h' = mkh (h_fo h1) (len F1) true (h_wbuf h1) (h_fl h1) (h_uw h1) (h_ro h1) (h_retry h1) (h_auto h1) (h_closed h1))
+    by congruence.
+  assert (F' = F1) by congruence. assert (x = OCopy F1) by congruence. subst h' F' x.
+  assert (CC : content (mkh (h_fo h1) (len F1) true (h_wbuf h1) (h_fl h1) (h_uw h1) (h_ro h1) (h_retry h1) (h_auto h1) (h_closed h1)) F1
+               = content h1 F1) by reflexivity.
+  destruct W1, S1.
+  splits.
+  - reflexivity.
+  - constructor; cbn [h_fo h_pos h_seek h_wbuf h_fl h_uw h_ro h_retry h_auto h_closed]; auto.
+    intros; discriminate.
+  - rewrite CC. exact C1.
+  - constructor; cbn [h_ro h_retry h_auto h_closed h_wbuf]; assumption.
+  - exact FO1.
+  - exact U1.
+  - intros RT. apply RT1; auto.
+  - exact L1.
+  - rewrite <- C1. unfold content. rewrite U1, slice_empty by (clear; lia). rewrite app_nil_r.
+    rewrite <- FO1. symmetry. apply take_drop_cat.
+Qed.
